@@ -407,6 +407,16 @@ func runC09(c *Ctx) {
 				case "builtin.append":
 					return fresh(x.Call.Args[0], depth+1)
 				}
+				// a helper of the package that builds the table: fresh if every result it returns is
+				if callee := x.Call.StaticCallee(); callee != nil && FuncInModule(callee) && len(callee.Blocks) > 0 {
+					rets := Returns(callee)
+					for _, r := range rets {
+						if !fresh(ReturnOperand(r, 0), depth+1) {
+							return false
+						}
+					}
+					return len(rets) > 0
+				}
 			}
 			return false
 		}
